@@ -24,6 +24,7 @@ STATES = [
     "bootstrap-request-in-flight",
     "broker-connecting",
     "broker-backing-off",
+    "broker-backing-off-after-immediate-failure",
     "requests-in-flight",
     "refresh-closing-one-broker",
     "refresh-closing-two-brokers",
@@ -144,6 +145,14 @@ def scenario(job):
             op("produce", produce([("t", 0)]))
             for at in cl.net.pending_attempts():
                 at.refuse()
+        elif state == "broker-backing-off-after-immediate-failure":
+            # the endpoint's connect() fails before it returns, so the broker client goes straight into its back-off
+            r = op("warm-meta", client.load_metadata_for_topics("t"))
+            settle(r)
+            ops.pop()
+            cl.net.sync_refuse.add(cl.addr[1])
+            op("produce", produce([("t", 0)]))
+            ctx.check(not cl.net.pending_attempts() and next_timer(clock) is not None, "prefix-ok", "not backing off")
         elif state == "requests-in-flight":
             warm([("t", 0), ("t", 1), ("t", 2)])
             op("produce", produce([("t", 0), ("t", 1), ("t", 2)]))
